@@ -272,7 +272,13 @@ def build(dm, annexed, names=None, cache=True, omp=None):
         fw = FortranWriter()
         for inv, p in zip(invokes, pre):
             sched = inv.schedule
-            sched.lower_to_language_level()
+            if omp:
+                # PSyIR lowering of OpenMP directives around a reduction is not supported by this PSyclone
+                # version (the f2pygen path generates them): lower the built-in itself only.
+                for k in sched.walk(LFRicBuiltIn):
+                    k.lower_to_language_level()
+            else:
+                sched.lower_to_language_level()
             loops = sched.walk(Loop)
             rec = dict(p)
             rec["setting"] = [dm, annexed]
@@ -283,8 +289,9 @@ def build(dm, annexed, names=None, cache=True, omp=None):
                 stmt = loops[0].loop_body.children[0]
                 rec["body"] = export_stmt(stmt, p["fmap"], p["smap"], p["dfname"])
                 rec["body_fortran"] = fw(stmt).strip().splitlines()[-1].strip()
-                rec["loop_var"] = loops[0].variable.name
-                rec["step"] = fw(loops[0].step_expr).strip()
+                if not omp:
+                    rec["loop_var"] = loops[0].variable.name
+                    rec["step"] = fw(loops[0].step_expr).strip()
             rec["directives"] = [type(d).__name__ for d in sched.walk(Directive)]
             text = subs.get(inv.name.lower(), "")
             rec.update(_from_text(text, p, rec))
@@ -335,6 +342,7 @@ def _from_text(text, p, rec):
     out["after_loop"] = [l for l in code[ends[-1] + 1:] if not l.startswith("END SUBROUTINE")
                          and not l.startswith("!$")] if ends else []
     out["omp_lines"] = [l for l in lines if l.startswith("!$omp")]
+    out["code_lines"] = code
     shape_ok = (len(dos) == 1 and len(ends) == 1 and len(body) == 1
                 and _norm_f(code[dos[0]]) == _norm_f(f"DO {p['dfname']} = loop0_start, loop0_stop, 1")
                 and _norm_f(body[0]) == _norm_f(rec.get("body_fortran", "")))
